@@ -40,6 +40,8 @@ static sqfs_object_t *frag_table_copy(const sqfs_object_t *obj)
 	if (copy == NULL)
 		return NULL;
 
+	sqfs_object_init(copy, frag_table_destroy, frag_table_copy);
+
 	if (array_init_copy(&copy->table, &tbl->table)) {
 		free(copy);
 		return NULL;
